@@ -100,6 +100,7 @@ def run(res, tier):
                         fn = mprop.write_cex(res, "panic_call_%d" % len(reported), p, E, "%s reachable while parsing in %s" % (e.name, lab))
                         res.violation(key, "parsing can reach %s in %s" % (e.name, lab), fn)
         res.samples.append({"function": lab, "paths": len(paths)})
+    n_paths += check_mmap_kernel(res, E, reported)
     res.distinct += n_paths
     res.extra["functions_in_scope"] = len(scope)
     res.extra["allocation_sites_checked"] = n_alloc
@@ -110,11 +111,154 @@ def run(res, tier):
                       "larger than %d bytes/elements that the file content can force is a violation" % LIMIT)
     res.assumptions += ["the reader (io::Read) may return any bytes and any error; read_exact fails at EOF",
                         "rpki-rs / chrono functions called on the parsed values (URI validation, timestamp_opt) do not panic"]
-    res.outside += ["utils/archive.rs (mmap-backed object archive): object lengths there come from archive headers and are "
-                    "bounds-checked against the mapping; not covered"]
+    res.bounds.append("utils/archive.rs: the three functions through which every access to the memory-mapped archive goes "
+                      "(Mmap::read, write, read_into) for every 64-bit position, length and mapping size: no panicking "
+                      "terminator and every slice range inside the mapping")
+    res.outside += ["the rest of utils/archive.rs: header arithmetic such as ObjectHeader::data_start (start + SIZE + name_len) "
+                    "can overflow on corrupt headers in overflow-checks builds only (release builds wrap and then fail the "
+                    "range check in Mmap::read); StorageRead's file fallback (Vec::with_capacity(len)) is reachable only "
+                    "where mmap is unavailable (not on Linux)"]
     res.rule = ("one case = one feasible path of a record parser; for every allocation call on it z3 searches for file "
                 "content that makes the requested size exceed the limit; panicking terminators and panic calls on a path are violations")
     mprop.finish_engine(res, E)
+
+
+def check_mmap_kernel(res, E, reported):
+    """Mmap::read / write / read_into (every access to a memory-mapped archive goes through them): for any
+    position, length and mapping size there is no panicking terminator, and every slice range handed to
+    Index<Range> lies inside the mapping (start <= end <= len)."""
+    n = 0
+    names = [(nm, b) for nm, bs in E.prog.bodies.items() for b in bs
+             if re.search(r"mmapimpl::<impl at src/utils/archive\.rs:[^>]*>::(read|write|read_into)$", nm)]
+    if len(names) < 3:
+        res.inconclusive.append("mmap kernel: only %d of Mmap::read/write/read_into found" % len(names))
+    maplen = z3.BitVec("mmap_len", 64)
+    selfp = mir.Opq("&Mmap", "self")
+
+    def m_from_raw_parts(E_, st, frame, callee, argvals, dest_ty):
+        ln = argvals[1].get(())
+        if not mir.is_z(ln):
+            return NotImplemented
+        return {(): mir.Opq("&[u8]", "mapping"), ("nbv",): ln}
+
+    for nm, body in names:
+        body.parse()
+        lab = "Mmap::" + nm.split("::")[-1]
+        res.functions.append("utils::archive::mmapimpl::%s (MIR, %d blocks, as_slice inlined)" % (lab, len(body.blocks)))
+        bad_ranges = []
+
+        def m_index(E_, st, frame, callee, argvals, dest_ty, bad_ranges=bad_ranges):
+            sl, rg = argvals[0], argvals[1]
+            ln = sl.get(("nbv",))
+            a, b = rg.get((("f", 0),)), rg.get((("f", 1),))
+            if not (mir.is_z(ln) and mir.is_z(a) and mir.is_z(b)):
+                bad_ranges.append((None, list(st.cond), st))
+                return NotImplemented
+            m = E_.model(st.cond, z3.Not(z3.And(z3.ULE(a, b), z3.ULE(b, ln))))
+            if m is not None:
+                bad_ranges.append((m, list(st.cond), st.fork()))
+            st.cond.append(z3.And(z3.ULE(a, b), z3.ULE(b, ln)))
+            return {(): mir.Opq(dest_ty or "&[u8]", "subslice"), ("nbv",): b - a}
+
+        def pre(E_, st, frame):
+            st.mem[(("o", selfp.id), "deref", ("f", 1))] = maplen
+
+        pos, ln = z3.BitVec("position", 64), z3.BitVec("length", 64)
+        third = {(): ln} if lab.endswith("::read") else {(): mir.Opq("&[u8]", "buffer"), ("nbv",): ln}
+
+        def m_len(E_, st, frame, callee, argvals, dest_ty):
+            v = argvals[0].get(("nbv",))
+            return {(): v} if mir.is_z(v) else NotImplemented
+
+        def replay(mdl_cond, what):
+            m = E.model(list(mdl_cond) + [maplen == 4096]) or E.model(list(mdl_cond))
+            if m is None:
+                return None, ""
+            vals = {k: m.eval(v, model_completion=True).as_long() for k, v in (("pos", pos), ("len", ln), ("map", maplen))}
+            if vals["map"] != 4096:
+                return None, " (no model with a 4096-byte mapping; not replayed)"
+            ok = native_mmap(res, lab.split("::")[-1], vals["pos"], vals["len"])
+            return ok, " position=%d length=%d mapping=4096 bytes" % (vals["pos"], vals["len"])
+
+        try:
+            paths = E.explore(body, max_visits=2, follow_panics=True, max_paths=2000, pre=pre,
+                              arg_values={"_1": {(): selfp}, "_2": {(): pos}, "_3": third}, nomut=[r"."],
+                              inline=[r"Mmap::as_slice(_mut)?$"],
+                              models={r"^std::slice::from_raw_parts(_mut)?::<": m_from_raw_parts,
+                                      r"^core::slice::<impl \\[u8\\]>::len$": m_len,
+                                      r"^<\[u8\] as (std::ops::)?Index(Mut)?<(std::ops::)?Range<usize>>>::index(_mut)?$": m_index})
+        except mir.Inconclusive as e:
+            res.inconclusive.append("%s: %s" % (lab, e))
+            continue
+        n += len(paths)
+        for m, cond, st in bad_ranges:
+            key = "mir:mmap-range:" + lab
+            if key in reported:
+                continue
+            reported.add(key)
+            if m is None:
+                res.inconclusive.append("%s: slice range not modelled" % lab)
+                continue
+            p = mir.Path(st, {}, "panic")
+            ok, note = replay(cond + [z3.BoolVal(True)], "range")
+            fn = mprop.write_cex(res, "mmap_range_" + lab.split("::")[-1], p, E,
+                                 "%s slices the mapping with a range outside it (start > end or end > len): "
+                                 "core::slice::index panics%s" % (lab, note), m)
+            if ok is False:
+                res.inconclusive.append("%s: out-of-range slice did not reproduce natively%s" % (lab, note))
+                continue
+            res.violation(key, "%s: position/length from the archive file make the slice range start > end or "
+                               "end > mapping length (slice index panic; abort under panic=abort)%s%s"
+                          % (lab, note, "; reproduced natively" if ok else ""), fn)
+        for i, p in enumerate(paths):
+            for e in p.events:
+                if e.kind == "panic":
+                    key = "mir:mmap-panic:%s:%s" % (lab, e.name[:50])
+                    if key in reported:
+                        continue
+                    reported.add(key)
+                    ok, note = replay(p.cond, "panic")
+                    fn = mprop.write_cex(res, "mmap_panic_%s_%d" % (lab.split("::")[-1], i), p, E,
+                                         "%s reachable in %s:%s" % (e.name, lab, note), E.model(p.cond))
+                    if ok is False:
+                        res.inconclusive.append("%s: panic path did not reproduce natively%s" % (lab, note))
+                        continue
+                    res.violation(key, "%s can panic (%s) on a position/length taken from the archive file%s%s"
+                                  % (lab, e.name[:80], note, "; reproduced natively" if ok else ""), fn)
+        res.samples.append({"function": lab, "paths": len(paths)})
+    return n
+
+
+def native_mmap(res, method, pos, ln):
+    """Real Mmap over a 4096-byte file; the call must return (Ok or Err), not panic."""
+    import nativetest
+    from vcommon import VERIF
+    call = {"read": "m.read(POS, LEN as usize).map(|_| ())",
+            "read_into": "{ let mut buf = vec![0u8; (LEN as usize).min(1 << 20)]; m.read_into(POS, &mut buf).map(|_| ()) }",
+            "write": "{ let buf = vec![0u8; (LEN as usize).min(1 << 20)]; m.write(POS, &buf).map(|_| ()) }"}[method]
+    src = """// generated by props/c27.py: native replay of a solver-found position/length against a real mapping
+use super::mmapimpl::Mmap;
+use std::io::Write;
+const POS: u64 = %d;
+const LEN: u64 = %d;
+#[test]
+fn c27_native_mmap() {
+    let mut file = tempfile::tempfile().unwrap();
+    file.write_all(&[0u8; 4096]).unwrap();
+    #[allow(unused_mut)]
+    let mut m = Mmap::new(&mut file, true).unwrap().unwrap();
+    let r = std::panic::catch_unwind(std::panic::AssertUnwindSafe(|| %s));
+    println!("C27-NATIVE-MMAP %s(pos={}, len={}) on a 4096-byte mapping: {}", POS, LEN,
+             match &r { Ok(Ok(_)) => "Ok".to_string(), Ok(Err(e)) => format!("Err({})", e), Err(_) => "PANIC".to_string() });
+    assert!(r.is_ok(), "Mmap::%s panicked");
+}
+""" % (pos, ln, call, method, method)
+    with open(mir.os.path.join(VERIF, "native", "c27_mmap_generated.rs"), "w") as f:
+        f.write(src)
+    failed, passed, out = nativetest.run_native_test("native_c27_mmap", "c27_native_mmap")
+    obs = re.findall(r"C27-NATIVE-MMAP (.*)", out)
+    res.extra.setdefault("native_replays", []).append({"test": "c27_native_mmap", "failed": failed, "observed": obs[:2] or [out[-300:]]})
+    return True if failed else (False if passed else None)
 
 
 _NATIVE = {}
